@@ -63,6 +63,11 @@ Theorem c31_only_own_endpoint : forall ops w j uid, valid ops = true ->
 Proof. exact only_own. Qed.
 Print Assumptions c31_only_own_endpoint.
 
+(* The statements above hold at every moment of a history, not only at its end: every prefix of a valid history is valid. *)
+Theorem c31_every_prefix : forall ops more, valid (ops ++ more) = true -> valid ops = true.
+Proof. exact valid_prefix. Qed.
+Print Assumptions c31_every_prefix.
+
 (* Non-vacuity: a valid history with IP sets, a policy, a profile, two workloads, a re-join and a leave; workload 0
    is connected on its second channel, whose stream has unordered groups with more than one message. *)
 Definition ex_rules (v : nat) (a b : list id) : rules := mkRules v [[a; []; []; []; []; []; []; []; b]] [].
